@@ -1,4 +1,4 @@
-(* Automated transactions: auto_xact_t::extend_xact (xact.cc:694-888) with the quick
+(* Automated transactions: auto_xact_t::extend_xact (xact.cc:694-892) with the quick
    account-only matcher post_pred (xact.cc:638-680) and its memo, xact_base_t::verify
    (xact.cc:425-472), and the journal loop that applies the rules known SO FAR to every
    transaction after finalize (journal.cc:365-380 add_xact, 445-449 extend_xact; the rule
@@ -131,13 +131,18 @@ Definition instantiate (cp : comm -> Z) (xstate : pstate) (ip : post) (l : rule_
 Definition inst_lines (cp : comm -> Z) (xstate : pstate) (ip : post) (ls : list rule_line) : res (list xpost) :=
   map_res (instantiate cp xstate ip) ls.
 
+(* xact.cc:703-708: a posting made by an automated transaction carries ITEM_GENERATED without
+   POST_CALCULATED and is never matched; the postings finalize makes for the further
+   commodities of an elided amount carry both flags and are the user's own *)
+Definition rule_made (p : post) : bool := p_generated p && negb (p_calculated p).
+
 (* the loop over the snapshot `initial_posts` *)
 Fixpoint extend_loop (cp : comm -> Z) (r : rule) (payee : str) (xstate : pstate)
          (init : list xpost) (rs : rstate) : res (list xpost) * rstate :=
   match init with
   | [] => (Ok [], rs)
   | ip :: rest =>
-      if p_generated (x_post ip) then extend_loop cp r payee xstate rest rs
+      if rule_made (x_post ip) then extend_loop cp r payee xstate rest rs
       else
         match match_post r rs payee (x_post ip) with
         | (Err e, rs1) => (Err e, rs1)
